@@ -611,6 +611,10 @@ func runC10(ctx *Ctx) {
 			c10Mixed(ctx, k, drv)
 		}
 		k++
+		if ctx.Want(k) {
+			c10WdCredit(ctx, k, drv)
+		}
+		k++
 	}
 	if ctx.Want(k) {
 		c10RaceDetector(ctx, k)
